@@ -270,7 +270,8 @@ class Program:
     ext_used: List[str] = field(default_factory=list)  # extended-library mnemonics used (sorted, unique)
     comments: List[Tuple[int, str]] = field(default_factory=list)
     n_qubits: int = 0
-    n_statements: int = 0  # gate-application statements (for tolerances)
+    n_statements: int = 0  # gate-application statements
+    n_param_statements: int = 0  # ... of which carry at least one angle parameter (for rounding tolerances)
 
 
 # ----------------------------------------------------------------------------------------- expressions
@@ -790,6 +791,8 @@ class _Parser:
             if len(set(ax)) != len(ax):
                 raise QasmError(f"line {t.line}: gate {g} applied to the same qubit twice")
             self.prog.n_statements += 1
+            if params:
+                self.prog.n_param_statements += 1
             out.append({"t": "u", "m": m, "ax": ax, "name": g, "params": params})
 
     # -- conditions
